@@ -24,11 +24,15 @@ CLAIMED = {
   text="Each seeded run builds a module tree on a scratch file system (package directories from prefix-colliding families, nesting, outer directories with spaces/dots), picks a working directory and a spelling for every argument, optionally injects one environment fault (missing file, non-Go file, type error in the root or an imported package, directory in place of a file, dangling symlink, empty .go file, go tool unavailable), and calls the real analysis.LoadSources. Oracle: fault-free -> no error, i-th package contains the i-th file and has the expected import path, root is an existing directory and a component-wise ancestor of every file; with a fault -> an error, never a panic. Sampling of layouts, not proof.",
   note="Trusted: the generator's own model of which import path a directory has (module path + relative dir). The layout dimension is generated input; the claim rests on the interaction of real os/filepath/go list with the path algorithm, which only a real tree can judge.",
   ref="3 (C17)"),
+ "C15": dict(
+  technique="deterministic simulation of the generated code's only input, the math/rand global source: seeded call histories in child processes, reflection oracle from source-derived tables, termination watchdog",
+  text="The real randdata and gounions generators run on fixed corpus programs (including cyclic type graphs) and seeded synthesised programs; the generated files are compiled unmodified into one binary. Each simulated run is a child process that calls every generated rand<T> function 32 times, each call under rand.Seed(s) with s derived from the run seed, and checks every returned value by reflection against tables derived from the source (enum constants, union members, skip tags): no panic, enum values exported constants, unions non-nil members, containers populated in at least one call, skipped fields zero, values vary where the type admits two, JSON round trip. Termination is bounded liveness: a stack overflow (64 MiB) or a call exceeding 10 s is attributed to the last logged call. Sampling over programs and seeds.",
+  note="Trusted: the reflection walker and the conservative 'admits two values' rule in c15/rt; synthesised programs stay inside the profile where the generated code compiles (a program whose generated code does not compile is dropped and counted - that is C01, not claimed); go1.23 math/rand seeding.",
+  ref="3 (C15)"),
 }
 
 BUILDING = {
  "C05": "check under construction in this session (simulated PostgreSQL); will be claimed once it runs - see DESIGN.md section 3",
- "C15": "check under construction in this session (seeded math/rand harness); will be claimed once it runs - see DESIGN.md section 3",
 }
 
 NA = {
